@@ -178,6 +178,58 @@ fn rr_sign<C: Suite>(pkg: &SigningPackage<C>, nonces: &fc::round1::SigningNonces
     }
 }
 
+/// Both signer entry points (seed-taking and the deprecated randomizer-taking one) must return exactly the
+/// RFC 9591 share of the independently randomized key material (s_i + a, Y_i + aG, Y + aG).
+#[allow(clippy::too_many_arguments)]
+pub fn rr_exactness<C: Suite>(
+    o: &mut Outcome,
+    tag: &str,
+    ctx: &str,
+    kps: &BTreeMap<Id<C>, KeyPackage<C>>,
+    s: &[Id<C>],
+    pkg: &SigningPackage<C>,
+    nonces: &BTreeMap<Id<C>, fc::round1::SigningNonces<C>>,
+    params: &RandomizedParams<C>,
+    seed: Option<&[u8]>,
+) {
+    let Some(a) = sc_from_bytes::<C>(&params.randomizer().serialize()) else {
+        o.fail(format!("{tag}/MACHINERY-randomizer-bytes"), ctx.to_string());
+        return;
+    };
+    let ag = gen_mul::<C>(a);
+    for id in s {
+        let kp = &kps[id];
+        let own = KeyPackage::<C>::new(
+            *id,
+            fc::keys::SigningShare::new(kp.signing_share().to_scalar() + a),
+            fc::keys::VerifyingShare::new(kp.verifying_share().to_element() + ag),
+            fc::VerifyingKey::new(kp.verifying_key().to_element() + ag),
+            *kp.min_signers(),
+        );
+        let want = match C::w_sign(pkg, &nonces[id], &own) {
+            Ok(x) => x,
+            Err(e) => {
+                o.fail(format!("{tag}/MACHINERY-plain-sign-on-randomized-material"), format!("{ctx}: {e:?}"));
+                return;
+            }
+        };
+        #[allow(deprecated)]
+        let dep = frost_rerandomized::sign(pkg, &nonces[id], kp, *params.randomizer());
+        match dep {
+            Ok(sh) if sh == want => o.count("deprecated_sign_exact", 1),
+            Ok(_) => o.fail(format!("{tag}/deprecated-sign-differs"), format!("{ctx}: sign(.., randomizer) of {} is not the share of the key material randomized by that randomizer", id_short::<C>(id))),
+            Err(e) => o.fail(format!("{tag}/deprecated-sign-failed"), format!("{ctx}: {e:?}")),
+        }
+        if let Some(sd) = seed {
+            match C::w_rr_sign(pkg, &nonces[id], kp, sd) {
+                Ok(sh) if sh == want => o.count("seed_sign_exact", 1),
+                Ok(_) => o.fail(format!("{tag}/seed-sign-differs"), format!("{ctx}: sign_with_randomizer_seed of {} is not the share of the key material randomized by the regenerated randomizer", id_short::<C>(id))),
+                Err(e) => o.fail(format!("{tag}/sign-refused"), format!("{ctx}: {e:?}")),
+            }
+        }
+    }
+}
+
 fn run_case<C: Suite>(c: &Case) -> Outcome {
     let mut o = Outcome::new();
     let tag = format!("C17/{}", C::name());
@@ -259,6 +311,7 @@ fn run_case<C: Suite>(c: &Case) -> Outcome {
                 }
                 Err(e) => o.fail(format!("{tag}/aggregate-failed"), format!("{ctx}: AllCheaters: {e:?}")),
             }
+            rr_exactness::<C>(&mut o, &tag, &ctx, &grp.kps, &s, &pkg, &nonces, &rr.params, rr.seed.as_deref());
             // the same session with public key packages of other provenance must give the same signature:
             // the pre-3.0 form without a threshold, a package that crossed the wire (binary / JSON), and
             // cloned parameters
